@@ -893,8 +893,10 @@ fn gen_hist(a: &HashMap<String, String>) {
                 let ts = if value { g.value_expr() } else { g.filter() };
                 let fsch = if r.random_range(0..8) == 0 { 3 - sid } else { sid };
                 json!({"op": if value { "execv" } else { "exec" }, "c": c, "fsch": fsch, "ts": ts})
-            } else if x < 97 {
+            } else if x < 96 {
                 json!({"op": "roundtrip", "c": c})
+            } else if x < 97 {
+                json!({"op": "mistyped", "c": c, "k": r.random_range(0..6)})
             } else {
                 let v = gen_val(&mut r, &f.ty, 0);
                 let v = if r.random_range(0..2) == 0 { spoil(&mut r, &v) } else { v };
